@@ -111,6 +111,17 @@ def laws(rng):
             out.append(('filter_select_commute', {'pipeline': p, 'sel': sel, 'select_then_filter': a, 'filter_then_select': b}))
         r = rng.randint(1, 3)
         law('tile_eq_concat', lambda: ds.tile(r), lambda: lazy_dataset.concatenate(*([ds] * r)), ('iter', 'len', 'gets'), {'reps': r})
+        # tile(r, shuffle=True) is the concatenation of r independently shuffled views (same draws from the global generator)
+        gseed = rng.randrange(1 << 31)
+
+        def tile_shuffled():
+            np.random.seed(gseed)
+            return ds.tile(r, shuffle=True)
+
+        def concat_shuffled():
+            np.random.seed(gseed)
+            return lazy_dataset.concatenate(*[ds.shuffle() for _ in range(r)]) if r > 1 else ds.shuffle()
+        law('tile_shuffle_eq_concat_of_shuffles', tile_shuffled, concat_shuffled, ('iter', 'len', 'gets'), {'reps': r, 'seed': gseed})
         # the same law in front of a per-epoch reshuffle with equally seeded generators (two epochs)
         if n >= 2:
             seed2 = rng.randrange(1 << 30)
